@@ -115,12 +115,102 @@ func genC10Case(r *rand.Rand, idx int64) *c10Case {
 			n.Rels = append(n.Rels, pd)
 		}
 	}
+	// identifiers that merely START with a keyword of the language are ordinary
+	// identifiers (classification, thisTeam, ctxAdmins, implementsPolicy, ...)
+	if idx%4 == 1 {
+		c10RenameKeywordPrefixed(r, cfg)
+	}
 	cc.Cfg = cfg
 	cc.style = &renderStyle{R: r}
 	cc.Text = cc.style.render(cfg)
 	cc.MaxNest = cc.style.MaxNest
 	cc.Features = usedFeatures(cc.style)
 	return cc
+}
+
+var c10KeywordPrefixed = []string{"classification", "classes", "thisTeam", "this_one", "ctxAdmins", "ctxs", "implementsPolicy", "implementsX", "thistle", "Classy", "Context2", "subclass", "related2", "permitsAll", "includesAll", "traverser", "Namespace2", "boolean2", "string2", "SubjectSet2", "Array2", "import2", "from2"}
+
+// c10RenameKeywordPrefixed renames one or two relations / permissions and possibly
+// one namespace, consistently, to identifiers that start with (or contain) a keyword.
+func c10RenameKeywordPrefixed(r *rand.Rand, cfg *Cfg) {
+	used := map[string]bool{}
+	for _, n := range cfg.NS {
+		used[n.Name] = true
+		for _, rd := range n.Rels {
+			used[rd.Name] = true
+		}
+	}
+	fresh := func() string {
+		for try := 0; try < 20; try++ {
+			if c := pickS(r, c10KeywordPrefixed); !used[c] {
+				used[c] = true
+				return c
+			}
+		}
+		return ""
+	}
+	var renameExpr func(e *Expr, old, nw string)
+	renameExpr = func(e *Expr, old, nw string) {
+		if e == nil {
+			return
+		}
+		if e.Rel == old {
+			e.Rel = nw
+		}
+		if e.Comp == old {
+			e.Comp = nw
+		}
+		for _, k := range e.Kids {
+			renameExpr(k, old, nw)
+		}
+	}
+	// relation names are global in the model (a traverse names a relation of another
+	// namespace by the same string), so a relation name is renamed everywhere
+	var rels []string
+	seen := map[string]bool{}
+	for _, n := range cfg.NS {
+		for _, rd := range n.Rels {
+			if !seen[rd.Name] && isIdent(rd.Name) {
+				seen[rd.Name] = true
+				rels = append(rels, rd.Name)
+			}
+		}
+	}
+	for k, cnt := 0, 1+r.IntN(2); k < cnt && len(rels) > 0; k++ {
+		old, nw := rels[r.IntN(len(rels))], fresh()
+		if nw == "" {
+			break
+		}
+		for _, n := range cfg.NS {
+			for _, rd := range n.Rels {
+				if rd.Name == old {
+					rd.Name = nw
+				}
+				for i := range rd.Types {
+					if rd.Types[i].Rel == old {
+						rd.Types[i].Rel = nw
+					}
+				}
+				renameExpr(rd.Rewrite, old, nw)
+			}
+		}
+	}
+	if r.IntN(2) == 0 && len(cfg.NS) > 0 {
+		n := cfg.NS[r.IntN(len(cfg.NS))]
+		if nw := fresh(); nw != "" && isIdent(n.Name) {
+			old := n.Name
+			n.Name = nw
+			for _, m := range cfg.NS {
+				for _, rd := range m.Rels {
+					for i := range rd.Types {
+						if rd.Types[i].NS == old {
+							rd.Types[i].NS = nw
+						}
+					}
+				}
+			}
+		}
+	}
 }
 
 func usedFeatures(st *renderStyle) []string {
